@@ -56,7 +56,8 @@ func (s *vService) CreateRequestContext(ctx sdk.Context, serviceName string, pro
 // heights are untouched; the stored number reads back by id; no panic for block time > 0.
 func VerifC18_BeginBlock() {
 	verifExpect("fulfilled")
-	const h0 = int64(40)
+	// the requests are made at an ordinary height - or in the chain's very first block (due at height 1 with interval 0)
+	h0 := []int64{40, 1}[verifChoice("firstBlock", 2)]
 	e := newVEnv(types.StoreKey, h0)
 	svc := &vService{startFails: verifChoice("startFails", 2) == 1}
 	k := keeper.NewKeeper(e.cdc, e.key, e.bank, svc)
